@@ -40,11 +40,13 @@ type Out struct {
 	cases, impl *bufio.Writer
 	meta        Meta
 	seen        map[string]bool
+	last        string
 }
 
 func (o *Out) emit(req, ans string) {
 	fmt.Fprintln(o.cases, req)
 	fmt.Fprintln(o.impl, ans)
+	o.last = req
 	o.meta.Cases++
 	if !o.seen[req] {
 		o.seen[req] = true
